@@ -34,7 +34,12 @@ RULE = (
     "(allow_rc, trim_terminal_stop, frame; unaligned and aligned inputs). collections sub-check: 2-3 rows that differ in length, "
     "terminal/double/internal stops and ambiguity codes through old/new Sequence, old/new SequenceCollection, Alignment, "
     "ArrayAlignment get_translation (3 of the 8 option combinations per case), has_terminal_stop, trim_stop_codons and the "
-    "translate_seqs app with and without trim_terminal_stop."
+    "translate_seqs app with and without trim_terminal_stop. gc_forms sub-check: 2-3 gap-free rows of whole codons (rich in codons whose meaning "
+    "differs from the standard code, ending in a stop of the code, a codon that is a stop only in the standard code, or a sense codon), DNA/RNA, all codes; "
+    "the code is named as int, str(int), its name, the old-style code object (cogent3.get_code(k)) and the new-style one (new_genetic_code.get_code(k)) "
+    "at get_translation / has_terminal_stop / trim_stop_codon(s) of old- and new-style Sequence, SequenceCollection, Alignment, ArrayAlignment wherever the "
+    "docstring (or an in-library caller) accepts that form, and at the translate_seqs and select_translatable apps (int, str, name, old-style object) "
+    "applied to old-style and to new-style (make_unaligned_seqs(..., new_type=True)) collections; every combination must give the result of the pinned table."
 )
 ASSUMPTIONS = [
     "reference tables are a snapshot pinned in the harness (identical in both independent copies in the repository at development time; tables 1 and 2 compared with the published NCBI strings)",
@@ -46,6 +51,13 @@ ASSUMPTIONS = [
     "protein X resolves to the whole canonical alphabet of the moltype (20 standard residues + U, and '*' for protein_with_stop); this is taken from the moltype's own alphabet, only B = {D, N}, Z = {E, Q} and the 20 standard residues are pinned independently",
     "best_frame (docstring): returns a frame 'that has either no stops or a single terminal stop codon', with require_stop 'a terminal stop must be present', ValueError otherwise; frame k = 1..3 reads seq[k-1:], -k reads rc(seq)[k-1:] (GeneticCode.sixframes). When several frames qualify any of them is accepted (the docstring gives no tie rule); when exactly one qualifies it must be returned; when none qualifies ValueError is required. Sequences shorter than 3 nt are not generated (sixframes raises ValueError for them)",
     "select_translatable (docstring + tests/test_app/test_translate.py): each kept sequence is the input oriented to the chosen frame, cut to whole codons from the frame start and, with trim_terminal_stop, without its terminal stop codon; with frame=k a sequence is excluded iff a stop occurs before the last codon of that frame (allow_rc is then irrelevant); excluded names are listed in info['translation_errors']; when nothing is translatable the app builds NotCompleted('FALSE', ...), so an ERROR-type result is reported (separate signature); aligned inputs are padded with trailing gaps which the app documents it removes (degap)",
+    "gc_forms: which way of naming a code is in the domain of an entry point is taken from its docstring: old-style methods say 'valid input to cogent3.get_code(), a genetic code object, number or name' "
+    "(cogent3.get_code returns old-style objects by default and raises for a new-style object, so new-style objects are not given to old-style classes or to the apps, whose gc is typed str | int | old GeneticCode); "
+    "new-style Sequence.get_translation and new-style SequenceCollection.has_terminal_stop / trim_stop_codons carry the same sentence, so they are given old-style objects too (signature tag old-code-object-to-new-style); "
+    "new-style Sequence.has_terminal_stop / trim_stop_codon say 'valid input to new_genetic_code.get_code()' and get new-style objects only; collection-level get_translation documents 'number or name' and is "
+    "additionally given the code object of its own flavour (what app.translate hands to it). The apps are documented for SeqsCollectionType = 'SequenceCollection' / alignments, which the new-style SequenceCollection "
+    "satisfies by name (make_unaligned_seqs documents new_type as the coming default); failures there carry the tag app-new-type. The class of the collection returned by an app is not asserted "
+    "(select_translatable builds an old-style collection whatever it was given); with frame=None any qualifying frame is accepted",
     "collection has_terminal_stop / trim_stop_codons without strict leave rows whose length is not a multiple of three untouched (documented: strict raises for such rows); alignments replace a trimmed stop by gaps (tests/test_core/test_alignment.py::test_get_translation_trim_stop)",
 ]
 
@@ -923,6 +935,195 @@ def exec_coll(case) -> Soft:
     return s
 
 
+# ------------------------- sub: gc_forms (every documented way of naming a genetic code)
+GC_FORMS = ("int", "str", "name", "old-object", "new-object")
+
+
+@st.composite
+def gcform_cases(draw):
+    """2-3 gap-free rows of whole codons without internal stops, rich in codons whose meaning differs between this code
+    and the standard code; rows end with a stop of this code, with a codon that is a stop only in the standard code, or
+    with a plain sense codon"""
+    code = draw(st.sampled_from(sorted(CODES)))
+    table = CODES[code][1]
+    std = CODES[1][1]
+    codons = _all_codons()
+    sense = [c for c in codons if aa_of(table, c) != "*"]
+    stops = [c for c in codons if aa_of(table, c) == "*"]
+    differ = [c for c in sense if aa_of(std, c) != aa_of(table, c)] or sense  # includes codons that are stops in code 1 only
+    std_stop_only = [c for c in sense if aa_of(std, c) == "*"] or sense
+    rna = draw(st.integers(0, 3)) == 0
+    rows = []
+    for _ in range(draw(st.integers(2, 3))):
+        ncod = draw(st.integers(1, 6))
+        body = draw(st.lists(st.one_of(st.sampled_from(differ), st.sampled_from(sense)), min_size=ncod, max_size=ncod))
+        ending = draw(st.sampled_from(["stop", "stop", "sense", "std-stop"]))
+        if ending == "stop" and stops:
+            body.append(draw(st.sampled_from(stops)))
+        elif ending == "std-stop":
+            body.append(draw(st.sampled_from(std_stop_only)))
+        row = "".join(body)
+        rows.append(row.replace("T", "U") if rna else row)
+    return {"code": code, "rna": rna, "rows": rows, "frame": draw(st.sampled_from([1, 1, None])), "trim": draw(st.booleans())}
+
+
+def exec_gcforms(case) -> Soft:
+    """int, str(int), name, old-style and new-style genetic code objects must select the same pinned table at every entry
+    point whose docstring (or an in-library caller) accepts them"""
+    import cogent3
+    from cogent3 import make_aligned_seqs, make_seq, make_unaligned_seqs
+    from cogent3.app.composable import NotCompleted
+    from cogent3.core import genetic_code as old_gc
+    from cogent3.core import new_genetic_code as new_gc
+
+    s = Soft("C12/gcarg/")
+    cid, rna, rows = case["code"], case["rna"], case["rows"]
+    name, table = CODES[cid][0], CODES[cid][1]
+    mtn = "rna" if rna else "dna"
+    data = {f"r{i}": r for i, r in enumerate(rows)}
+    equal = len({len(r) for r in rows}) == 1
+    oko, og = s.call("old/get_code", old_gc.get_code, cid)
+    okn, ng = s.call("new/get_code", new_gc.get_code, cid)
+    forms = {"int": cid, "str": str(cid), "name": name}
+    if oko:
+        forms["old-object"] = og
+    if okn:
+        forms["new-object"] = ng
+    evals = 0
+
+    def terminal_stop(r):
+        return len(r) >= 3 and aa_of(table, r[-3:]) == "*"
+
+    def sig_for(form, impl, label):
+        # an old-style code object given to a new-style sequence / collection fails for one reason whatever the method
+        if form == "old-object" and impl == "new":
+            return "old-code-object-to-new-style"
+        return f"{form}/{impl}/{label}"
+
+    def accepted(form, impl, method):
+        """is this way of naming the code documented for the entry point?  old-style docstrings: 'valid input to
+        cogent3.get_code(), a genetic code object, number or name' (cogent3.get_code rejects a new-style object);
+        new-style Sequence.get_translation and new-style SequenceCollection.has_terminal_stop / trim_stop_codons say the same
+        (cogent3.get_code returns and accepts old-style objects), new-style Sequence.has_terminal_stop / trim_stop_codon
+        say 'valid input to new_genetic_code.get_code()'; collection get_translation documents number or name, and is
+        handed a code object by app.translate"""
+        if form in ("int", "str", "name"):
+            return True
+        if impl == "old":
+            return form == "old-object"
+        if form == "new-object":
+            return True
+        return method in ("seq.get_translation", "coll.has_terminal_stop", "coll.trim_stop_codons")
+
+    opts = ((False, True, False), (True, False, False))  # include_stop, trim_stop, incomplete_ok
+    # --- single sequences
+    for impl in ("old", "new"):
+        n0, r0 = "r0", rows[0]
+        ok, obj = s.call(f"{impl}/make_seq", make_seq, r0, name=n0, moltype=mtn, new_type=impl == "new")
+        if not ok:
+            continue
+        term = terminal_stop(r0)
+        for form, g in forms.items():
+            what = f"code {cid} given as {form} ({impl}-style Sequence {r0!r})"
+            if accepted(form, impl, "seq.get_translation"):
+                for inc, trim, incomplete in opts:
+                    evals += 1
+                    _cmp(s, sig_for(form, impl, "seq.get_translation"), f"{what} include_stop={inc} trim_stop={trim}",
+                         lambda: obj.get_translation(gc=g, include_stop=inc, trim_stop=trim, incomplete_ok=incomplete),
+                         model_get_translation(table, r0, impl, inc, trim, incomplete))
+            if accepted(form, impl, "seq.has_terminal_stop"):
+                evals += 2
+                _cmp(s, sig_for(form, impl, "seq.has_terminal_stop"), what, lambda: str(bool(obj.has_terminal_stop(gc=g))), ("ok", str(term)))
+                _cmp(s, sig_for(form, impl, "seq.trim_stop_codon"), what, lambda: obj.trim_stop_codon(gc=g), ("ok", r0[:-3] if term else r0))
+    # --- containers
+    makers = [
+        ("SequenceCollection", "old", False, lambda: make_unaligned_seqs(data, moltype=mtn)),
+        ("SequenceCollection", "new", False, lambda: make_unaligned_seqs(data, moltype=mtn, new_type=True)),
+    ]
+    if equal:
+        makers += [
+            ("Alignment", "old", True, lambda: make_aligned_seqs(data, moltype=mtn, array_align=False)),
+            ("ArrayAlignment", "old", True, lambda: make_aligned_seqs(data, moltype=mtn, array_align=True)),
+        ]
+    any_stop = any(terminal_stop(r) for r in rows)
+    for label, impl, aligned, mk in makers:
+        okm, coll = s.call(f"{impl}/{label}/construct", mk)
+        if not okm:
+            continue
+        for form, g in forms.items():
+            what = f"code {cid} given as {form} ({impl}-style {label} {data})"
+            # collection level get_translation: number or name (docstring), and the flavour's own code object (what
+            # app.translate hands to it for old-style collections; the new-style method passes it on to Sequence.get_translation)
+            if form in ("int", "str", "name") or form == f"{impl}-object":
+                for inc, trim, incomplete in opts:
+                    wants = {n: model_get_translation(table, r, impl, inc, trim, incomplete) for n, r in data.items()}
+                    trimming = trim and not inc
+                    exp = {n: w[1] + ("-" if aligned and trimming and terminal_stop(data[n]) else "") for n, w in wants.items()}
+                    evals += 1
+                    _cmp(s, sig_for(form, impl, f"{label}.get_translation"), f"{what} include_stop={inc} trim_stop={trim}",
+                         lambda: repr(sorted((n, str(v)) for n, v in coll.get_translation(gc=g, include_stop=inc, trim_stop=trim, incomplete_ok=incomplete).to_dict().items())),
+                         ("ok", repr(sorted(exp.items()))))
+            if accepted(form, impl, "coll.has_terminal_stop"):
+                evals += 2
+                _cmp(s, sig_for(form, impl, f"{label}.has_terminal_stop"), what, lambda: str(bool(coll.has_terminal_stop(gc=g))), ("ok", str(any_stop)))
+                trimmed = {n: (r[:-3] + ("---" if aligned else "")) if terminal_stop(r) else r for n, r in data.items()}
+                _cmp(s, sig_for(form, impl, f"{label}.trim_stop_codons"), what,
+                     lambda: repr(sorted((n, str(v)) for n, v in coll.trim_stop_codons(gc=g).to_dict().items())), ("ok", repr(sorted(trimmed.items()))))
+    # --- the apps: 'identifier for a genetic code or a genetic code instance' (typed str | int | old-style GeneticCode),
+    #     fed old-style and new-style unaligned collections
+    frame, trim = case["frame"], case["trim"]
+    for impl in ("old", "new"):
+        okm, coll = s.call(f"app/{impl}/construct", lambda: make_unaligned_seqs(data, moltype=mtn, new_type=impl == "new"))
+        if not okm:
+            continue
+        pre = "app" if impl == "old" else "app-new-type"  # circumstance tag: new-style collections given to the apps
+        for form, g in forms.items():
+            if form == "new-object":
+                continue
+            what = f"code {cid} given as {form}; {impl}-style SequenceCollection {data}"
+            fsig = f"{pre}/{form}" if impl == "old" else pre
+            # translate_seqs
+            oka, app = s.call(f"{fsig}/translate_seqs/get_app", lambda: cogent3.get_app("translate_seqs", moltype=mtn, gc=g, trim_terminal_stop=trim))
+            if oka:
+                evals += 1
+                wants = {n: model_get_translation(table, r, impl, False, trim, False) for n, r in data.items()}
+                rejected = any(w[0] == "raise" for w in wants.values())  # a terminal stop that is not trimmed
+                okr, res = s.call(f"{fsig}/translate_seqs", app, coll)
+                if okr:
+                    failed = isinstance(res, NotCompleted)
+                    if rejected:
+                        s.check(failed, f"{fsig}/translate_seqs/accepted", f"{what} trim_terminal_stop={trim}: expected NotCompleted, got {res!r}"[:400])
+                    elif s.check(not failed, f"{fsig}/translate_seqs/not-completed", f"{what} trim_terminal_stop={trim}: {res!r}"[:500]):
+                        okd, got = s.call(f"{fsig}/translate_seqs/to_dict", lambda: sorted((n, str(v)) for n, v in res.to_dict().items()))
+                        if okd:
+                            s.eq(got, sorted((n, w[1]) for n, w in wants.items()), f"{fsig}/translate_seqs", f"{what} trim_terminal_stop={trim}")
+            # select_translatable: no row has an internal stop in frame 1
+            oka, app = s.call(f"{fsig}/select_translatable/get_app", lambda: cogent3.get_app("select_translatable", moltype=mtn, gc=g, trim_terminal_stop=trim, frame=frame))
+            if oka:
+                evals += 1
+                okr, res = s.call(f"{fsig}/select_translatable", app, coll)
+                if okr and s.check(not isinstance(res, NotCompleted), f"{fsig}/select_translatable/not-completed", f"{what} trim_terminal_stop={trim} frame={frame}: {res!r}"[:500]):
+                    okd, got = s.call(f"{fsig}/select_translatable/to_dict", lambda: {n: str(v) for n, v in res.to_dict().items()})
+                    if okd:
+                        for n, r in data.items():
+                            if frame is None:
+                                fr = model_frames(table, r, rna)
+                                keep = [model_selected(table, r, rna, f, trim) for f in (1, 2, 3) if frame_ok(fr[f], False)]
+                            else:
+                                keep = [model_selected(table, r, rna, 1, trim)]
+                            s.check(got.get(n) in keep, f"{fsig}/select_translatable", f"{what} trim_terminal_stop={trim} frame={frame}: {n} returned as {got.get(n)!r}; expected one of {keep}")
+    s.evals = evals
+    s.nontrivial = True
+    s.cls("rna" if rna else "dna", "equal-length" if equal else "ragged", f"frame={frame}")
+    if cid != 1:
+        s.cls("non-standard-code")
+    if any(aa_of(table, r[i : i + 3]) != aa_of(CODES[1][1], r[i : i + 3]) for r in rows for i in range(0, len(r), 3)):
+        s.cls("codon-differs-from-standard-code")
+    if any_stop:
+        s.cls("terminal-stop")
+    return s
+
+
 # --------------------------------------------------------- sub: translate
 @st.composite
 def translate_cases(draw):
@@ -1148,6 +1349,7 @@ SUBS = [
     Sub("translate", exec_translate, strategy=translate_cases(), quick=1600, thorough=320_000, shards_quick=16),
     Sub("collections", exec_coll, strategy=coll_cases(), quick=640, thorough=160_000, shards_quick=16),
     Sub("frames", exec_frames, strategy=frame_cases(), quick=800, thorough=240_000, shards_quick=16),
+    Sub("gc_forms", exec_gcforms, strategy=gcform_cases(), quick=192, thorough=80_000, shards_quick=16),
 ]
 
 KNOWN_PREDICATES = {}
@@ -1161,7 +1363,7 @@ FUZZ = {
 
 META = {
     "technique": "exhaustive enumeration (27 codes x 64 codons, all IUPAC symbols/base subsets) plus Hypothesis-generated sequences, against pinned NCBI tables with TCAG index arithmetic",
-    "level_text": "The finite part of the property (every code table entry through every single-codon entry point; all 3375 IUPAC codons per code; complement, matching and ambiguity maps of every IUPAC symbol for DNA/RNA and of B/Z/X for protein moltypes, old and new) is enumerated completely; multi-codon behaviour (frames, strands, stop handling, views, ragged collections, alignments, frame selection by best_frame / select_translatable, the translate_seqs app) is explored with thousands of generated sequences per run, including lengths around the 256-codon boundary, ambiguity codes and open frames on the reverse strand only.",
+    "level_text": "The finite part of the property (every code table entry through every single-codon entry point; all 3375 IUPAC codons per code; complement, matching and ambiguity maps of every IUPAC symbol for DNA/RNA and of B/Z/X for protein moltypes, old and new) is enumerated completely; multi-codon behaviour (frames, strands, stop handling, views, ragged collections, alignments, frame selection by best_frame / select_translatable, the translate_seqs app, every documented way of naming the genetic code: number, string, name, old- and new-style code object, apps on old- and new-style collections) is explored with thousands of generated sequences per run, including lengths around the 256-codon boundary, ambiguity codes and open frames on the reverse strand only.",
     "level_note": "Trusts the pinned table snapshot in vlib/ncbi_codes.py and a 10-line reference translator. Gapped codons (incomplete_ok with gaps) and '?' are not asserted; when several reading frames qualify, any of them is accepted from best_frame.",
     "design_ref": "DESIGN.md section 1, C12",
 }
